@@ -78,7 +78,7 @@ def verify(sh, out, relevance, redundancy, relation, strategy, alpha, beta, orig
 def shard_direct(sh, part):
     from outrank.algorithms.importance_estimator import rank_features_3MR
     rng = sh.rng('direct', part)
-    reps = 150 if sh.tier == 'quick' else 500
+    reps = 150 if sh.tier == 'quick' else 3000
     for t in range(reps):
         n = rng.choice([1, 2, 3, 4, 5, 8, 12, 20, 30])
         name_kind = rng.choice(['str', 'str', 'int', 'hostile'])
